@@ -90,7 +90,8 @@ func (c18) Gen(seed int64, tier string, avoid []string) *Plan {
 		}
 		arrs = append(arrs, arr{t, s, ts})
 		if chance(r, dupP) {
-			arrs = append(arrs, arr{t + int64(r.Intn(6))*1000, s, ts})
+			// (a repeated number need not repeat the timestamp: a sender that re-used the number, or one cycle later)
+			arrs = append(arrs, arr{t + int64(r.Intn(6))*1000, s, ts + uint32(pick(r, 0, 0, 3000, 90000))})
 		}
 	}
 	sort.SliceStable(arrs, func(i, j int) bool { return arrs[i].at < arrs[j].at })
